@@ -186,6 +186,12 @@ def check_case(case, ctx, tm, Screw, Wrench):
         o = guard("vs.kdiv", cname + ".kdiv/" + case["kk"], lambda: (k * a) / k)
         if o is not None:
             cmp("vs.kdiv", cname + ".kdiv/" + case["kk"], val(o), d1, tol.maxabs(d1) * max(1.0, abs(case["k"])))
+        o = guard("vs.kdiv", cname + ".div/" + case["kk"], lambda: a / k)
+        if o is not None:
+            cmp("vs.kdiv", cname + ".div/" + case["kk"], val(o), d1 / float(case["k"]), tol.maxabs(d1) / min(1.0, abs(case["k"])))
+        o = guard("vs.kdiv", cname + ".mul/" + case["kk"], lambda: a * k)
+        if o is not None:
+            cmp("vs.kdiv", cname + ".mul/" + case["kk"], val(o), d1 * float(case["k"]), tol.maxabs(d1) * max(1.0, abs(case["k"])))
         o = guard("vs.kdiv", cname + ".kdiv_r/" + case["kk"], lambda: (a * k) / k)
         if o is not None:
             cmp("vs.kdiv", cname + ".kdiv_r/" + case["kk"], val(o), d1, tol.maxabs(d1) * max(1.0, abs(case["k"])))
